@@ -90,7 +90,11 @@ def content(path, variant):
             extra += ["", f"function collectShared_{tag}(items) {{", "    const result = [];", "    for (const it of items) {", "        result.push(it);", "    }", "    return result;", "}"]
         else:
             extra += ["", f"function renderShared_{tag}(items) {{", '    let result = "";', "    for (const it of items) {", "        result += it;", "    }", "    return result;", "}"]
-    return text + ("\n".join(extra) + "\n" if extra else "")
+    # the file-level suppression differs between the variants (none / one linter / another linter): an edit may add, drop
+    # or change the `ignore-file` header, and a later lint call must judge the file by the header it has NOW
+    c = "#" if lang == "py" else "//"
+    head = {0: "", 1: f"{c} thailint: ignore-file[magic-numbers]\n", 2: f"{c} thailint: ignore-file[nesting]\n"}[variant % 3] if idx % 2 == 0 else ""
+    return head + text + ("\n".join(extra) + "\n" if extra else "")
 
 
 def ms(vs, root):
